@@ -11,23 +11,178 @@
   The hypothesis "no blocked recipient" is what fix F4 establishes on the real chain for rollapp
   owners (creation needs the owner's signature, transfer now refuses blocked addresses; lock owners
   are signers): `blocked_owner_fails_block_counterexample` shows it is needed.
-  The ROLLAPP-OWNER half of that hypothesis is not assumed: the rollapp table of M-Incent (its
-  `.rollapp r owner launched` inputs) is a projection of an M-Core state (`RollappsFromCore`), and M-Core
-  proves `OwnersNotBlocked` for every reachable state — ownership transfers included
-  (`Lemmas/CoreOwners.run_owners`, through `Core.transferOwner`'s refusal of a blocked new owner = /repo
-  fix 64b101c36).  Reverting that fix breaks `transferOwnership_skeleton` (tie) and `run_owners` (proof).
+
+  Second pass — REACHABLE-STATE WRAPPERS (`…_reachable`, `incentives_epoch_hook_never_fails_in_block`): `GInv`, `RollOK`
+  and `NoBlocked` are no longer hypotheses about the final state but follow from the history: `NoBlocked` from the
+  well-formedness of the two inputs of M-Incent,
+    `Op.lockOwnersOK`            (`.locks ls`: no blocked lock owner — discharged in M-Lockup: a lock is created by its
+                                  owner's own message and module accounts do not sign), and
+    `Op.rollappOwnerNotBlocked`  (`.rollapp r o l`: o not blocked — THE NAMED OPEN HYPOTHESIS, discharged in M-Core:
+                                  owners sign the creation and, since fix F4 64b101c36, ownership transfer refuses
+                                  blocked addresses).
+  "A failure while paying ONE RECIPIENT is confined to that recipient" is FALSE of the code at both call sites of
+  x/incentives `Distribute` (no per-recipient isolation: `one_blocked_recipient_fails_whole_payout`, for every
+  tracker and bank):
+    * streamer EndBlock: the whole EndBlock fails, the block fails, the chain halts and the good recipient of the
+      same pass is not paid (`endblock_one_bad_recipient_halts_counterexample`; recorded as
+      C11/block/streamer-endblock-fails/blocked-rollapp-owner, fixed at the source by F4 64b101c36 — the bad recipient
+      can no longer be created — not by isolating recipients);
+    * epoch hooks (incentives `AfterEpochEnd`, streamer `AfterEpochEnd` flush): the epochs module's wrapper confines
+      the failure to the HOOK (`epoch_hook_failure_confined_to_hook`, `begin_never_halts`): the block completes, but
+      the hook's whole epoch distribution is rolled back — the good recipients of that epoch are not paid either
+      (`epoch_hook_one_bad_recipient_starves_all_counterexample`).
+  Discharge of the rollapp-owner half from M-Core (`streamer_end_block_never_fails_from_core`): the rollapp table of
+  M-Incent (its `.rollapp r owner launched` inputs) is a projection of an M-Core state (`RollappsFromCore`), and M-Core
+  proves `OwnersNotBlocked` for every reachable state — ownership transfers included (`Lemmas/CoreOwners.run_owners`,
+  through `Core.transferOwner`'s refusal of a blocked new owner = /repo fix 64b101c36).  Reverting that fix breaks
+  `transferOwnership_skeleton` (tie) and `run_owners` (proof).
 -/
 import DymVerif.Lemmas.IncentBlocks
+import DymVerif.Lemmas.IncentOwners
 import DymVerif.Lemmas.CoreOwners
 namespace DymVerif.C11
 open DymVerif DymVerif.Incent
 
-/-- general form, for any state without blocked recipients -/
-theorem streamer_end_block_never_fails_of_noBlocked (now mi : Nat) (ops : List Op)
+theorem streamer_end_block_never_fails (now mi : Nat) (ops : List Op)
     (hw : ∀ op ∈ ops, op.wf ∧ op.wfS ∧ op.noRetarget)
     (hlen : (run (init now mi) ops).streams.length < maxU64) (hnb : NoBlocked (run (init now mi) ops)) :
     ∃ s', streamerEndBlock (run (init now mi) ops) = .ok s' :=
   streamer_endBlock_ok_reachable now mi ops hw hlen hnb
+
+theorem end_block_does_not_halt (now mi : Nat) (ops : List Op)
+    (hw : ∀ op ∈ ops, op.wf ∧ op.wfS ∧ op.noRetarget)
+    (hlen : (run (init now mi) ops).streams.length < maxU64) (hnb : NoBlocked (run (init now mi) ops))
+    (hh : (run (init now mi) ops).halted = false) :
+    (step (run (init now mi) ops) .end_).1 = .ok :=
+  end_does_not_halt now mi ops hw hlen hnb hh
+
+theorem incentives_epoch_end_never_fails (s : State) (e : Nat) (hg : GInv s) (hroll : RollOK s) (hnb : NoBlocked s) :
+    ∃ s', incAfterEpochEnd s e = .ok s' :=
+  incentives_epochEnd_ok s e hg hroll hnb
+
+/-- a blocked rollapp owner (possible before fix F4 through `MsgTransferOwnership`) makes the streamer
+    EndBlock return an error: the block fails and the chain halts -/
+theorem blocked_owner_fails_block_counterexample :
+    (match streamerEndBlock (run (init 100 500) blockedOwnerHistory) with | .error .err => true | _ => false) = true ∧
+    (step (run (init 100 500) blockedOwnerHistory) .end_).2.halted = true ∧
+    (∀ op ∈ blockedOwnerHistory, op.wf ∧ op.wfS ∧ op.noRetarget) ∧
+    ¬ NoBlocked (run (init 100 500) blockedOwnerHistory) :=
+  endblock_blocked_owner_counterexample
+
+/-! ## second pass: reachable-state wrappers -/
+
+/-- **after every admissible history whose lock-table and rollapp inputs are well-formed** the streamer EndBlock
+    returns no error — nothing is assumed about the final state -/
+theorem streamer_end_block_never_fails_reachable (now mi : Nat) (ops : List Op)
+    (hw : ∀ op ∈ ops, op.wf ∧ op.wfS ∧ op.noRetarget) (hlocks : ∀ op ∈ ops, op.lockOwnersOK)
+    (hRollappOwnersNotBlocked : ∀ op ∈ ops, op.rollappOwnerNotBlocked)
+    (hlen : (run (init now mi) ops).streams.length < maxU64) :
+    ∃ s', streamerEndBlock (run (init now mi) ops) = .ok s' :=
+  streamer_endBlock_ok_reachable now mi ops hw hlen
+    (run_noblocked ops _ (init_ginv now mi) (init_noblocked now mi) (fun o ho => ⟨(hw o ho).1, hlocks o ho, hRollappOwnersNotBlocked o ho⟩))
+
+theorem end_block_does_not_halt_reachable (now mi : Nat) (ops : List Op)
+    (hw : ∀ op ∈ ops, op.wf ∧ op.wfS ∧ op.noRetarget) (hlocks : ∀ op ∈ ops, op.lockOwnersOK)
+    (hRollappOwnersNotBlocked : ∀ op ∈ ops, op.rollappOwnerNotBlocked)
+    (hlen : (run (init now mi) ops).streams.length < maxU64) (hh : (run (init now mi) ops).halted = false) :
+    (step (run (init now mi) ops) .end_).1 = .ok :=
+  end_does_not_halt now mi ops hw hlen
+    (run_noblocked ops _ (init_ginv now mi) (init_noblocked now mi) (fun o ho => ⟨(hw o ho).1, hlocks o ho, hRollappOwnersNotBlocked o ho⟩)) hh
+
+/-- the incentives epoch hook on the state at a block boundary, after every history (re-targeting allowed: the
+    gauge side does not depend on it) -/
+theorem incentives_epoch_end_never_fails_reachable (now mi : Nat) (ops : List Op)
+    (hw : ∀ op ∈ ops, op.wf) (hlocks : ∀ op ∈ ops, op.lockOwnersOK)
+    (hRollappOwnersNotBlocked : ∀ op ∈ ops, op.rollappOwnerNotBlocked) (e : Nat) :
+    ∃ s', incAfterEpochEnd (run (init now mi) ops) e = .ok s' :=
+  let g := run_good now mi ops (fun o ho => ⟨hw o ho, hlocks o ho, hRollappOwnersNotBlocked o ho⟩)
+  incentives_epochEnd_ok _ e g.ginv g.roll g.nb
+
+/-- **where the hook really runs**: inside the epochs BeginBlocker of ANY next block (`begin dt`), for each of the
+    three epoch infos in the order day, hour, week, on the state the streamer's own epoch-end hook leaves — the
+    incentives epoch hook returns no error -/
+theorem incentives_epoch_hook_never_fails_in_block (now mi : Nat) (ops : List Op)
+    (hw : ∀ op ∈ ops, op.wf) (hlocks : ∀ op ∈ ops, op.lockOwnersOK)
+    (hRollappOwnersNotBlocked : ∀ op ∈ ops, op.rollappOwnerNotBlocked) (dt : Nat) :
+    let s0 : State := { run (init now mi) ops with now := (run (init now mi) ops).now + dt }
+    let s1 := epochTick s0 0
+    let s2 := epochTick s1 1
+    (∃ s', incAfterEpochEnd (applyHook (fun x => streamerAfterEpochEnd x 0) s0) 0 = .ok s') ∧
+    (∃ s', incAfterEpochEnd (applyHook (fun x => streamerAfterEpochEnd x 1) s1) 1 = .ok s') ∧
+    (∃ s', incAfterEpochEnd (applyHook (fun x => streamerAfterEpochEnd x 2) s2) 2 = .ok s') := by
+  intro s0 s1 s2
+  have g := run_good now mi ops (fun o ho => ⟨hw o ho, hlocks o ho, hRollappOwnersNotBlocked o ho⟩)
+  have g0 : Good s0 := now_good _ dt g
+  have g1 : Good s1 := epochTick_good s0 0 g0
+  have g2 : Good s2 := epochTick_good s1 1 g1
+  have k := fun (s : State) (e : Nat) (h : Good s) =>
+    let h' := sae_hook_good s e h
+    incentives_epochEnd_ok _ e h'.ginv h'.roll h'.nb
+  exact ⟨k s0 0 g0, k s1 1 g1, k s2 2 g2⟩
+
+/-- non-vacuity: a history with locks, rollapps, gauges and a stream satisfies the two input conditions -/
+example : ∀ op ∈ ([.begin 1, .end_, .rollapp 0 3 true, .rollappGauge 0, .locks [⟨1, 0, 100, 3600⟩],
+    .createGauge 0 true 0 1 true [] 101 1, .begin 3601, .end_] : List Op), op.wf ∧ op.lockOwnersOK ∧ op.rollappOwnerNotBlocked := by decide
+
+/-! ## "paying one recipient is confined to that recipient": what the code does -/
+
+/-- **no per-recipient isolation** (`distributeTrackedRewards` returns on the first failing transfer): for EVERY
+    tracker containing one blocked recipient and EVERY bank the whole payout fails -/
+theorem one_blocked_recipient_fails_whole_payout (tr : Tracker) (b : Bank) (h : ∃ p ∈ tr, blocked p.1 = true) :
+    payAll tr b = none :=
+  payAll_blocked_fails tr b h
+
+/-- **epoch-hook path: the failure is confined to the HOOK** — a failing hook leaves the state exactly as it was
+    (the epochs wrapper discards the cache context) … -/
+theorem epoch_hook_failure_confined_to_hook (s : State) (e : Nat) (x : Out) :
+    (incAfterEpochEnd s e = .error x → applyHook (fun y => incAfterEpochEnd y e) s = s) ∧
+    (streamerAfterEpochEnd s e = .error x → applyHook (fun y => streamerAfterEpochEnd y e) s = s) :=
+  ⟨fun h => applyHook_error _ s x h, fun h => applyHook_error _ s x h⟩
+
+/-- … and the `begin` step has no failing outcome at all: whatever the hooks do, the block goes on -/
+theorem begin_never_halts (s : State) (dt : Nat) (h : s.halted = false) : (step s (.begin dt)).1 = .ok :=
+  begin_step_ok s dt h
+
+/-- two launched rollapps with a gauge each, both fed by one stream; the second owner is `o2` -/
+def twoOwnersHistory (o2 : Nat) : List Op :=
+  [.begin 1, .end_, .rollapp 0 3 true, .rollapp 1 o2 true, .rollappGauge 0, .rollappGauge 1, .fund streamerAddr [9000],
+   .createStream false [9000] [⟨1, 1⟩, ⟨2, 1⟩] 101 1 3, .begin 3601, .end_, .begin 7201]
+
+/-- **streamer EndBlock: one failing recipient is NOT confined** — with the second owner blocked (102) the whole
+    EndBlock returns an error, the chain halts and the GOOD owner (3) of the other gauge is not paid; with a good
+    second owner (4) the very same history pays 2250 to each.  (The history violates `Op.rollappOwnerNotBlocked`:
+    since fix F4 64b101c36 the real chain cannot produce it through messages.) -/
+theorem endblock_one_bad_recipient_halts_counterexample :
+    (match streamerEndBlock (run (init 100 500) (twoOwnersHistory 102)) with | .error .err => true | _ => false) = true ∧
+    (step (run (init 100 500) (twoOwnersHistory 102)) .end_).2.halted = true ∧
+    (step (run (init 100 500) (twoOwnersHistory 102)) .end_).2.bank.get 3 = [] ∧
+    (step (run (init 100 500) (twoOwnersHistory 4)) .end_).1 = .ok ∧
+    (step (run (init 100 500) (twoOwnersHistory 4)) .end_).2.bank.get 3 = [2250] ∧
+    (step (run (init 100 500) (twoOwnersHistory 4)) .end_).2.bank.get 4 = [2250] ∧
+    ¬ (∀ op ∈ twoOwnersHistory 102, op.rollappOwnerNotBlocked) := by
+  refine ⟨by decide, by decide, by decide, by decide, by decide, by decide, by decide⟩
+
+/-- two launched rollapps with a gauge each, funded directly (no stream: the streamer EndBlock never touches them);
+    the `week` epoch ends in the last block -/
+def hookOwnersHistory (o2 : Nat) : List Op :=
+  [.begin 1, .end_, .rollapp 0 3 true, .rollapp 1 o2 true, .rollappGauge 0, .rollappGauge 1, .fund 0 [2000],
+   .addToGauge 0 1 [1000], .addToGauge 0 2 [1000], .begin 10, .end_, .begin 604800]
+
+/-- **epoch-hook path: confined to the hook, not to the recipient** — with the second owner blocked the incentives
+    epoch hook of the `week` epoch fails as a whole and is rolled back: the chain goes on (no halt, the next EndBlock
+    succeeds), but the GOOD owner (3) is not paid and no gauge has distributed anything; with a good second owner the
+    same history pays 1000 to each -/
+theorem epoch_hook_one_bad_recipient_starves_all_counterexample :
+    (run (init 100 500) (hookOwnersHistory 102)).halted = false ∧
+    (step (run (init 100 500) (hookOwnersHistory 102)) .end_).1 = .ok ∧
+    (run (init 100 500) (hookOwnersHistory 102)).bank.get 3 = [] ∧
+    (run (init 100 500) (hookOwnersHistory 102)).gauges.map (·.distributed) = [[], []] ∧
+    (run (init 100 500) (hookOwnersHistory 4)).bank.get 3 = [1000] ∧
+    (run (init 100 500) (hookOwnersHistory 4)).bank.get 4 = [1000] ∧
+    (run (init 100 500) (hookOwnersHistory 4)).gauges.map (·.distributed) = [[1000], [1000]] := by
+  refine ⟨by decide, by decide, by decide, by decide, by decide, by decide, by decide⟩
+
+-- ---------------------------------------------------------------- the rollapp-owner half, from M-Core
 
 /-- the rollapp table M-Incent was given is a projection of the M-Core state `cs` under the address
     translation `ι`: every entry is the padding placeholder or carries the owner of a rollapp record of `cs` -/
@@ -44,12 +199,12 @@ theorem rollapp_owners_not_blocked_of_core (ι : Core.Addr → Nat) (hι : ∀ a
   · subst h; decide
   · rw [ho, hι]; exact hc r hr
 
-/-- **streamer_end_block_never_fails** — for every admissible history of M-Incent whose lock owners are
+/-- **streamer_end_block_never_fails_from_core** — for every admissible history of M-Incent whose lock owners are
     not blocked (lock owners are signers) and whose rollapp table is a projection of ANY reachable M-Core
     state (any parameters, any op sequence — `MsgTransferOwnership` included — with rollapps created by
     non-module accounts), the streamer EndBlock returns no error.  The rollapp-owner half of `NoBlocked`
     is discharged from M-Core's `OwnersNotBlocked`. -/
-theorem streamer_end_block_never_fails (now mi : Nat) (ops : List Op)
+theorem streamer_end_block_never_fails_from_core (now mi : Nat) (ops : List Op)
     (hw : ∀ op ∈ ops, op.wf ∧ op.wfS ∧ op.noRetarget)
     (hlen : (run (init now mi) ops).streams.length < maxU64)
     (hlocks : ∀ l ∈ (run (init now mi) ops).locks, blocked l.owner = false)
@@ -70,3 +225,5 @@ example : ∃ ι : Core.Addr → Nat, (∀ a, blocked (ι a) = Core.blockedAddr 
     cases h : Core.blockedAddr a with
     | true => simp [blocked]
     | false => simp [blocked, incAddr], by decide⟩
+
+end DymVerif.C11
